@@ -7,6 +7,7 @@ fn main() {
     match args.get(1).map(|s| s.as_str()) {
         Some("paych") => paych::main(&args[2..]),
         Some("multisig") => multisig::main(&args[2..]),
+        Some("minerctl") => minerctl::main(&args[2..]),
         _ => {
             eprintln!("usage: drive <subsystem> ...");
             std::process::exit(2);
